@@ -97,7 +97,7 @@ def exposed_containers(v):
 def graph(h, caching=False, warm=False):
     """A small graph exercising every accessor: a -> b (directed), a -- c (undirected), self-loop on a; universe U with laws + whitelist."""
     h.reset()
-    V = {n: h.new("Vertex", n) for n in "abc"}
+    V = {n: h.new("Vertex", n) for n in "abcz"}   # z is isolated and in no universe
     e1 = h.new("DirectedEdge", "e1", V["a"], V["b"])
     e2 = h.new("UnDirectedEdge", "e2", V["a"], V["c"])
     e3 = h.new("DirectedEdge", "e3", V["a"], V["a"])
@@ -129,6 +129,11 @@ def accessors(h):
         ("neighbors(ANY)", c04.FN, lambda V, E, U, L: h.call(nb, V["a"], C["ANY"])),
         ("neighbors(filter)", c04.FN, lambda V, E, U, L: h.call(nb, V["a"], C["FORWARD"], C["NEIGHBOR"], Callback("f"))),
         ("find_links", "edgegraph.traversal.helpers.find_links", lambda V, E, U, L: h.call(fl, V["a"], V["b"])),
+        ("neighbors(no neighbours)", c04.FN, lambda V, E, U, L: h.call(nb, V["b"])),
+        ("Vertex.links(none)", "edgegraph.structure.vertex.Vertex.links", lambda V, E, U, L: h.getattr(V["z"], "links")),
+        ("BaseObject.universes(none)", "edgegraph.structure.base.BaseObject.universes", lambda V, E, U, L: h.getattr(V["z"], "universes")),
+        ("neighbors(isolated)", c04.FN, lambda V, E, U, L: h.call(nb, V["z"])),
+        ("find_links(none)", "edgegraph.traversal.helpers.find_links", lambda V, E, U, L: h.call(fl, V["z"], V["b"])),
     ]
     for mod, names in (("edgegraph.traversal.breadthfirst", ("bft",)), ("edgegraph.traversal.depthfirst", ("dft_recursive", "dft_iterative"))):
         for n in names:
@@ -176,8 +181,8 @@ def run(ctx):
     res.rule("ESCAPE", n)
     m = captures(ctx, h, res)
     res.rule("CAPTURE", m)
-    common.vacuity(res, "ESCAPE", 36)
-    common.vacuity(res, "CAPTURE", 10)
+    common.vacuity(res, "ESCAPE", 50)
+    common.vacuity(res, "CAPTURE", 17)
     try:
         from sa import eff
         eff.escape_notes(ctx)
@@ -289,6 +294,19 @@ def captures(ctx, h, res):
         a, b = h.new("Vertex", "a"), h.new("Vertex", "b")
         return nested("attributes", arg), lambda: h.call(h.cls("DirectedEdge"), a, b, attributes=arg), [a, b]
 
+    def empty(name, qual, mk, callf):
+        def build():
+            arg = mk()
+            return [(name + " (empty)", arg)], (lambda: callf(arg)), []
+        case(name + " [empty container]", qual, build)
+
+    empty("Vertex(links=)", "edgegraph.structure.vertex.Vertex.__init__", lambda: Seq([], "list"), lambda a: h.call(h.cls("Vertex"), links=a))
+    empty("Vertex(universes=)", "edgegraph.structure.base.BaseObject.__init__", lambda: Seq([], "list"), lambda a: h.call(h.cls("Vertex"), universes=a))
+    empty("Vertex(attributes=)", "edgegraph.structure.base.BaseObject.__init__", lambda: DictV(), lambda a: h.call(h.cls("Vertex"), attributes=a))
+    empty("Link(vertices=)", "edgegraph.structure.link.Link.__init__", lambda: Seq([], "list"), lambda a: h.call(h.cls("SymLink"), vertices=a))
+    empty("Universe(vertices=)", "edgegraph.structure.universe.Universe.__init__", lambda: Seq([], "list"), lambda a: h.call(h.cls("Universe"), vertices=a))
+    empty("UniverseLaws(edge_whitelist=)", "edgegraph.structure.universe.UniverseLaws.__init__", lambda: DictV(), lambda a: h.call(lawcls, edge_whitelist=a))
+    empty("load_adj_dict(adjdict)", "edgegraph.builder.adjlist.load_adj_dict", lambda: DictV(), lambda a: h.call(h.fn("edgegraph.builder.adjlist.load_adj_dict"), a))
     case("Vertex(links=)", "edgegraph.structure.vertex.Vertex.__init__", b_vertex_links)
     case("Vertex(universes=)", "edgegraph.structure.base.BaseObject.__init__", b_vertex_universes)
     case("Vertex(attributes=)", "edgegraph.structure.base.BaseObject.__init__", b_vertex_attributes)
